@@ -69,7 +69,28 @@ SPECIAL = [0.0, -0.0, 1.0, -1.0, 2.0, 0.1, -0.1, 1 / 3, -1 / 3, 2 / 3, 0.5, 1e16
            1e-05, 1e-07, 0.30000000000000004, 9007199254740993.0, 4.35, 1e300, 1e-300, 3.141592653589793, 100.0, 7.0]
 
 
+# repr uses exponent notation (with a PLUS sign for large magnitudes) / integers-as-floats >= 1e16
+EXPO = [1e16, -1e16, 1e+17, -3.75e+300, 1.7976931348623157e+308, -1.7976931348623157e+308, 5e-324, 1e-07, -1e-07,
+        9999999999999998.0, 1e22, 1e23, 1.5e+16, 2.5e+25, 6.02214076e+23, 1e-05, 1.2345e-10, 4.9406564584124654e-324,
+        1e+100, -2e+200, 9.999999999999999e+22, 12345678901234567890.0, 2.0 ** 53, 2.0 ** 53 + 2, 2.0 ** 64,
+        2.0 ** 100, 2.0 ** 1023, 1e15, 123456789012345.6, 1e-4, 0.0001234]
+
+
+def rand_expo_bits(rng):
+    k = rng.random()
+    if k < 0.45:
+        return bits_of_f(rng.choice(EXPO))
+    if k < 0.7:
+        return bits_of_f(float(rng.choice([1, -1]) * rng.randint(10 ** 16, 10 ** rng.randint(17, 40))))
+    if k < 0.85:
+        return bits_of_f(rng.choice([1, -1]) * 2.0 ** rng.randint(54, 1023))
+    return bits_of_f(rng.choice([1, -1]) * rng.randint(1, 9999) * 10.0 ** rng.randint(-320, -5))
+
+
 def rand_weight_bits(rng):
+    k = rng.random()
+    if k < 0.2:
+        return rand_expo_bits(rng)
     k = rng.random()
     if k < 0.35:
         while True:
@@ -105,10 +126,20 @@ def rand_text(rng, allow_empty=True, maxlen=12):
 
 
 # ------------------------------------------------------------------------------------------------ generation
-def mk_case(meta, nv, alts, ops, **tags):
-    """meta: 9 strings; nv: num_voters before writing; alts: [(id, name)]; ops: [0, n] | [1, n1, n2, bits]"""
-    payload = [[proto.text(s) for s in meta], nv, [[a, proto.text(nm)] for a, nm in alts], ops]
+def mk_case(meta, nv, alts, ops, ops2=(), mode=0, **tags):
+    """meta: 9 strings; nv: num_voters before writing; alts: [(id, name)]; ops: [0, n] | [1, n1, n2, bits].
+    History cases: ops2 non-empty or mode = 1.  mode 0: the object built by ops is observed (edges, outgoing_edges,
+    neighbours) and written once, then ops2 is applied to the SAME object, which is the instance under test.
+    mode 1: the file written from ops is parsed into a new object, that object is written again, then modified by
+    ops2; the result is the instance under test."""
+    payload = [[proto.text(s) for s in meta], nv, [[a, proto.text(nm)] for a, nm in alts], list(ops), list(ops2), mode]
     return case("c09.roundtrip", payload, **tags)
+
+
+def unpack(payload):
+    if len(payload) == 4:
+        return list(payload) + [[], 0]
+    return payload
 
 
 def default_meta(rng=None):
@@ -186,12 +217,40 @@ def generate(tier, seed):
                                                    else rng.randint(0, 10 ** scale + 5)])
         if rng.random() < 0.3:
             rng.shuffle(ops)
-        nodes = nodes_of_ops(ops)
+        ops2, mode = [], 0
+        if i % 3 == 0:                                                # history case
+            mode = (i // 3) % 2
+            stored = [(o[1], o[2]) for o in ops if o[0] == 1]
+            for _ in range(rng.randint(1, 6)):
+                r = rng.random()
+                if r < 0.6:                                           # overwrite the weight, no new neighbour
+                    a, b = rng.choice(stored)
+                    ops2.append([1, a, b, rand_weight_bits(rng)])
+                elif r < 0.9:                                         # new edge (maybe a new node)
+                    a = rng.choice(ids)
+                    b = rng.choice(ids) if rng.random() < 0.7 else rng.randint(0, 10 ** scale + 7)
+                    ops2.append([1, a, b, rand_weight_bits(rng)])
+                    stored.append((a, b))
+                else:
+                    ops2.append([0, rng.randint(0, 10 ** scale + 7)])
+        nodes = nodes_of_ops(ops + ops2)
         named = list(nodes)
         if rng.random() < 0.5:
             rng.shuffle(named)
         alts = [(n, rand_text(rng) if rng.random() < 0.7 else "Alternative %d" % n) for n in named]
-        out.append(mk_case(default_meta(rng), rng.choice([0, len(nodes), rng.randint(0, 99)]), alts, ops, rnd=1))
+        out.append(mk_case(default_meta(rng), rng.choice([0, len(nodes), rng.randint(0, 99)]), alts, ops, ops2, mode,
+                           rnd=1))
+    # ---- small history cases: every edge of a small graph overwritten after the first write
+    for k in (1, 2, 3):
+        pairs = [(a, b) for a in range(1, k + 1) for b in range(1, k + 1)]
+        for mode in (0, 1):
+            for j in range(12 if tier == "quick" else 60):
+                es = [p for p in pairs if rng.random() < 0.6] or [pairs[0]]
+                ops = [[1, a, b, rand_weight_bits(rng)] for a, b in es]
+                ops2 = [[1, a, b, rand_weight_bits(rng)] for a, b in es if rng.random() < 0.8]
+                ops2 += [[1, a, b, rand_weight_bits(rng)] for a, b in pairs if (a, b) not in es and rng.random() < 0.3]
+                alts = [(n, "Alt %d" % n) for n in nodes_of_ops(ops + ops2)]
+                out.append(mk_case(default_meta(), 0, alts, ops, ops2, mode, hist=1, k=k))
     return out
 
 
@@ -206,22 +265,57 @@ def _scratch(ext=".wmd"):
     return os.path.join(d, "c09_%d_%d%s" % (os.getpid(), _counter[0], ext))
 
 
-def build_instance(payload):
-    from preflibtools.instances import MatchingInstance
-    meta, nv, alts, ops = payload
-    inst = MatchingInstance()
+def apply_ops(inst, ops):
     for o in ops:
         if o[0] == 0:
             inst.add_node(o[1])
         else:
             inst.add_edge(o[1], o[2], f_of_bits(o[3]))
-    for f, v in zip(META_FIELDS, meta):
-        setattr(inst, f, proto.untext(v))
+
+
+def bookkeeping(inst, alts, nv):
+    """the redundant fields of a well-formed instance: names keyed by the nodes, counts"""
+    want = {a: proto.untext(nm) for a, nm in alts}
+    names = {a: nm for a, nm in inst.alternatives_name.items() if a in inst.node_mapping}
     for a, nm in alts:
-        inst.alternatives_name[a] = proto.untext(nm)
-    inst.num_alternatives = len(inst.alternatives_name)
+        if a in inst.node_mapping and a not in names:
+            names[a] = want[a]
+    for n in inst.node_mapping:
+        if n not in names:
+            names[n] = "Alternative %d" % n
+    inst.alternatives_name = names
+    inst.num_alternatives = len(names)
     inst.num_voters = nv
     inst.num_edges = sum(len(s) for s in inst.node_mapping.values())
+
+
+def build_instance(payload, hist):
+    """returns the instance under test; hist receives what was seen on the way (history cases)"""
+    from preflibtools.instances import MatchingInstance
+    meta, nv, alts, ops, ops2, mode = unpack(payload)
+    inst = MatchingInstance()
+    apply_ops(inst, ops)
+    for f, v in zip(META_FIELDS, meta):
+        setattr(inst, f, proto.untext(v))
+    bookkeeping(inst, alts, nv)
+    if not ops2 and not mode:
+        return inst
+    # ---- history: use the object (the graph API and write) before it is modified
+    hist["first"] = observe(inst)
+    pa = _scratch()
+    hist["paths"].append(pa)
+    inst.write(pa)
+    text_a = _read_raw(pa)
+    if mode == 1:
+        inst = MatchingInstance()
+        inst.parse_file(pa)
+        hist["parsed"] = observe(inst)
+        pa2 = _scratch()
+        hist["paths"].append(pa2)
+        inst.write(pa2)
+        hist["rewrite_same"] = (_read_raw(pa2) == text_a)
+    apply_ops(inst, ops2)
+    bookkeeping(inst, alts, nv)
     return inst
 
 
@@ -305,8 +399,11 @@ def _guard_obs(fn, *a, **kw):
 def impl(c):
     paths = []
     try:
-        inst = build_instance(c["payload"])
-        res = {"hyp": [m for o in c["payload"][3] if o[0] == 1 for m in check_token(o[3])]}
+        hist = {"paths": paths}
+        pl = unpack(c["payload"])
+        inst = build_instance(pl, hist)
+        res = {"hyp": [m for o in pl[3] + pl[4] if o[0] == 1 for m in check_token(o[3])]}
+        res["history"] = {k: v for k, v in hist.items() if k != "paths"}
         res["before"] = observe(inst)
         p1 = _scratch()
         paths.append(p1)
@@ -356,7 +453,9 @@ def oracle_requests(c, r):
     return [("c09.parse", [0, 0, wmd, fname, 0, r["text1"]]),      # (a) readlines
             ("c09.parse", [0, 0, wmd, fname, 1, r["text1"]]),      # (a) splitlines
             ("c09.parse", [0, 1, wmd, fname, 0, r["text1"]]),      # (g)
-            ("c09.roundtrip", r["inst"])]                          # the model's own round trip
+            ("c09.roundtrip", r["inst"]),                          # the model's own round trip
+            ("c09.build", [[0, o[1]] if o[0] == 0 else [1, o[1], o[2], proto.text(repr(f_of_bits(o[3])))]
+                           for o in unpack(c["payload"])[3] + unpack(c["payload"])[4]])]   # (h) the call history
 
 
 def model_content(mi):
@@ -434,6 +533,25 @@ def judge(c, r, mres):
         return {"kind": "broken-correspondence", "reason": "generated instance has no edge"}
     if r["before_after_write"] != dict(b, meta=r["before_after_write"]["meta"]):
         return "write() changed the instance"
+    # (h) the instance is what the history of add_node / add_edge calls says (model: add_edge overwrites the weight)
+    m_build = mres[4]
+    mode = unpack(c["payload"])[5]
+    bw = {}
+    for (a, b2), tok in m_build[1]:
+        bw[(a, b2)] = proto.untext(tok)
+    b_edges = sorted([n, m, bw.get((n, m))] for n, s2 in m_build[0] for m in s2)
+    if tok_edges(b["edges"]) != b_edges:
+        return ("(h) edges() of the instance after its call history: %r; add_node/add_edge semantics give %r"
+                % (tok_edges(b["edges"])[:6], b_edges[:6]))
+    b_nodes = sorted(n for n, _ in m_build[0])
+    if (mode == 0 and b["nodes"] != b_nodes) or not set(b["incident"]) <= set(b["nodes"]) <= set(b_nodes):
+        return "(h) nodes() of the instance after its call history: %r, expected %r" % (b["nodes"], b_nodes)
+    if r["history"].get("rewrite_same") is False:
+        return "(c) history: write(parse(file A)) is not byte-identical to file A"
+    if "parsed" in r["history"]:
+        bad = same_as_original(r["history"]["parsed"], r["history"]["first"], "history: parse_file(file A)")
+        if bad:
+            return bad
     # (b) implementation round trip, both entry points
     for key, what in (("file", "(b) parse_file(write(i))"), ("str", "(b) parse_str(write(i))")):
         if "err" in r[key]:
@@ -445,7 +563,7 @@ def judge(c, r, mres):
     if r.get("text2") != r["text1"]:
         return "(c) write(parse(write(i))) is not byte-identical to write(i)"
     # (a) the model's parser reads the implementation's file
-    m_read, m_split, m_hdr, m_rt = mres
+    m_read, m_split, m_hdr, m_rt = mres[:4]
     for m, what in ((m_read, "(a) model-parse(readlines(impl.write(i)))"),
                     (m_split, "(a) model-parse(splitlines(impl.write(i)))")):
         if m[0] != 0:
@@ -506,7 +624,8 @@ def _bucket(n):
 
 def stats(c, r, m):
     b = r["before"]
-    ops = c["payload"][3]
+    pl = unpack(c["payload"])
+    ops = pl[3] + pl[4]
     es = b["edges"]
     pairs = {(a, b2) for a, b2, _ in es}
     n_add = sum(1 for o in ops if o[0] == 1)
@@ -534,33 +653,59 @@ def stats(c, r, m):
         labels.append("equal weights")
     if any(nm == "" for _, nm in b["names"]):
         labels.append("empty name")
+    reprs = [repr(w) for w in ws]
+    if any("e+" in t for t in reprs):
+        labels.append("weight repr with e+")
+    if any("e-" in t for t in reprs):
+        labels.append("weight repr with e-")
+    if any(abs(w) >= 1e16 and w == int(w) for w in ws if abs(w) < 1.8e308):
+        labels.append("integer-valued weight >= 1e16")
+    if pl[4] or pl[5]:
+        labels.append("history: %s" % ("file parsed, re-written, modified, re-written" if pl[5] else
+                                       "same object observed + written, modified, written again"))
+        first = {(a, b2): w for a, b2, w in r["history"]["first"]["edges"]}
+        if any((a, b2) in first and first[(a, b2)] != w for a, b2, w in es):
+            labels.append("history: weight of an existing edge overwritten after the first write")
     mw = r.get("mwrite")
     labels.append("(e) model-write == impl.write bytes: %s" %
                   ("yes" if isinstance(mw, list) and mw[0] == 0 and mw[1] == r["text1"] else "NO"))
-    if isinstance(m, list) and len(m) == 4 and m[0][0] == 0 and "ok" in r.get("file", {}):
+    if isinstance(m, list) and len(m) == 5 and m[0][0] == 0 and "ok" in r.get("file", {}):
         labels.append("metadata model-parse == impl-parse: %s" %
                       ("yes" if model_content(m[0][1])["meta"] == r["file"]["ok"]["meta"] else "NO"))
     return labels
 
 
+def _calls(ops):
+    return [("add_node(%d)" % o[1]) if o[0] == 0 else
+            "add_edge(%d, %d, %r)  # bits 0x%016x" % (o[1], o[2], f_of_bits(o[3]), o[3]) for o in ops]
+
+
 def describe(c):
-    meta, nv, alts, ops = c["payload"]
-    return {"metadata": dict(zip(META_FIELDS, (proto.untext(t) for t in meta))), "num_voters_before": nv,
-            "alternatives_name": [[a, proto.untext(nm)] for a, nm in alts],
-            "calls": [("add_node(%d)" % o[1]) if o[0] == 0 else
-                      "add_edge(%d, %d, %r)  # bits 0x%016x" % (o[1], o[2], f_of_bits(o[3]), o[3]) for o in ops]}
+    meta, nv, alts, ops, ops2, mode = unpack(c["payload"])
+    d = {"metadata": dict(zip(META_FIELDS, (proto.untext(t) for t in meta))), "num_voters_before": nv,
+         "alternatives_name": [[a, proto.untext(nm)] for a, nm in alts], "calls": _calls(ops)}
+    if ops2 or mode:
+        d["then"] = ("edges()/outgoing_edges()/neighbours() called, instance written to file A; " +
+                     ("file A parsed into a new object, that object written again; " if mode else "") +
+                     "then on the same object:")
+        d["calls_after_first_write"] = _calls(ops2)
+    return d
 
 
 def shrink(c):
-    meta, nv, alts, ops = c["payload"]
+    meta, nv, alts, ops, h_ops, mode = unpack(c["payload"])
 
-    def rebuild(ops2, alts2=None, meta2=None):
-        nodes = nodes_of_ops(ops2)
+    def rebuild(ops_new, alts2=None, meta2=None, h2=None):
+        hh = h_ops if h2 is None else h2
+        nodes = nodes_of_ops(ops_new + hh)
         a2 = [[a, nm] for a, nm in (alts if alts2 is None else alts2) if a in nodes]
         for n in nodes:
             if n not in [a for a, _ in a2]:
                 a2.append([n, proto.text("n")])
-        return dict(c, payload=[meta if meta2 is None else meta2, nv, a2, ops2])
+        return dict(c, payload=[meta if meta2 is None else meta2, nv, a2, ops_new, hh, mode])
+
+    for i in range(len(h_ops)):
+        yield rebuild(ops, h2=h_ops[:i] + h_ops[i + 1:])
 
     if sum(1 for o in ops if o[0] == 1) > 1 or any(o[0] == 0 for o in ops):
         for i in range(len(ops)):
